@@ -57,7 +57,7 @@ static void run_pso(Ctx &c){
     long cnt = 0; auto rng = [&]()->double{ cnt++; return 0.05 + 0.9 * (double) ((cnt * 37) % 101) / 101.0; };
     ParticleSwarmState st(nd, np); st.initializeParticlesInsideBox(std::vector<double>((size_t) nd, -1.0), std::vector<double>((size_t) nd, 1.0), rng);
     auto f = [nd](const std::vector<double> &x, std::vector<double> &y){ for(size_t i=0;i<y.size();i++){ double s = 0; for(int j=0;j<nd;j++){ double t = x[i*nd+j] - 0.2 * (j + 1); s += t * t * (1 + j) + 0.1 * std::sin(5 * x[i*nd+j]); } y[i] = s; } };
-    auto inside = [nd, dom](const std::vector<double> &x)->bool{ for(int j=0;j<nd;j++) if (std::abs(x[j]) > 1.0) return false; if (dom == 1 && x[0] > 0.5) return false; if (dom == 2) return false; return true; };
+    auto inside = [nd, dom](const std::vector<double> &x)->bool{ for(int j=0;j<nd;j++) if (std::abs(x[j]) > 1.0) return false; if (dom == 1 && x[0] > 0.5) return false; if (dom == 2) return false; if (dom == 3) for(int j=0;j<nd;j++) if (std::abs(x[j]) > 0.5) return false; return true; };
     ParticleSwarm(f, inside, 0.5, 2.0, 2.0, it, st, rng);
     add(c, st.getParticlePositions()); add(c, st.getParticleVelocities()); add(c, st.getBestParticlePositions()); c.sx += " rng=" + std::to_string(cnt);
 }
@@ -191,6 +191,7 @@ static std::vector<Hist> histories(){
     // ---- node optimiser with nested regions (min-lebesgue / min-delta evaluate a nested maximisation in every interval): rule (0 leja, 1 max-lebesgue, 2 min-lebesgue, 3 min-delta), nodes
     addh(1, "optimizer:min-lebesgue:5", "opt2,5", "@nextnode"); addh(1, "optimizer:min-delta:5", "opt3,5", "@nextnode"); addh(1, "optimizer:max-lebesgue:7", "opt1,7", "@nextnode");
     addh(0, "pso:6x2", "pso6,2,6,0", "@pso"); addh(0, "pso:7x3:halfspace", "pso7,3,5,1", "@pso"); addh(1, "pso:9x2:halfspace", "pso9,2,8,1", "@pso");
+    addh(0, "pso:8x2:small-box", "pso8,2,4,3", "@pso"); // the swarm starts in a box four times the domain: several particles have no best position of their own while the swarm has one
     return H;
 }
 
